@@ -247,3 +247,123 @@ def random_dag(rng: random.Random, size: int = 25, *, symbolic=True, functions=T
     outs = {f"out{i}": rng.choice(cands[-8:]) for i in range(n_outputs)}
     outs["last"] = cands[-1]
     return pt.make_dict_of_named_arrays(outs)
+
+
+# --------------------------------------------------------------------------
+# nested, shared functions
+# --------------------------------------------------------------------------
+
+def _call(fdef, *args):
+    """a NEW call site of an EXISTING FunctionDefinition object (trace_call would make a new,
+    merely equal, definition)"""
+    names = sorted(fdef.parameters)
+    assert len(names) == len(args)
+    return fdef(**dict(zip(names, args)))
+
+
+def _fdef_of(named_result):
+    return named_result._container.function
+
+
+def nested_calls(depth: int = 2, order: str = "outer-first", repeat: int = 2, tag=None):
+    """Traced functions calling traced functions: `f1` (innermost) is called from inside `f2`'s body
+    (several times, different arguments), `f2` from inside `f3`'s body, … up to `depth`; the SAME
+    definitions are also called at top level, `repeat` times with different arguments.
+    `order`: which the traversal of the output dictionary meets first —
+      "outer-first": the outermost function (so inner definitions are first met inside a body),
+      "inner-first": the innermost function at top level (so bodies later hit cached definitions),
+      "mixed": alternating.
+    No array is shared between namespaces (concrete shapes, no data wrappers)."""
+    pt = _pt()
+    from pytato.function import trace_call
+    xs = [pt.make_placeholder(f"nx{i}", (4, 4), F64) for i in range(4)]
+
+    def f1(a):
+        r = a * 2 + 1
+        if tag is not None:
+            r = r.tagged(tag)
+        return {"o": r, "p": pt.roll(r, 1, 0)}
+    _sh: dict = {}
+
+    def shifted(i, rep):                 # one object per distinct argument expression
+        return _sh.setdefault((i, rep), xs[i] + rep)
+    top: dict[str, list] = {}
+    r1 = trace_call(f1, xs[0])
+    defs = [_fdef_of(r1["o"])]
+    top["f1"] = [r1["o"], r1["p"]]
+    for lvl in range(2, depth + 1):
+        inner = defs[-1]
+        ninner = len(inner.parameters)
+
+        def body(a, b, inner=inner, ninner=ninner, lvl=lvl):
+            def ci(*args):
+                return _call(inner, *args[:ninner])
+            c1 = ci(a, b)             # same inner definition, three call sites, different arguments
+            c2 = ci(b, a)
+            c3 = ci(a + b, a)
+            s = c1["o"] + c2["p"] * c3["o"]
+            if tag is not None and lvl % 2 == 0:
+                s = s.tagged(tag)
+            return {"o": s, "p": c1["o"] - c3["p"]}
+        body.__name__ = f"f{lvl}"
+        r = trace_call(body, xs[lvl % 4], xs[(lvl + 1) % 4])
+        defs.append(_fdef_of(r["o"]))
+        top[f"f{lvl}"] = [r["o"], r["p"]]
+    # repeated top-level calls of every definition with different arguments
+    for k, d in enumerate(defs):
+        n = len(d.parameters)
+        for rep in range(1, repeat):
+            args = [shifted((k + rep + j) % 4, rep) for j in range(n)]
+            c = _call(d, *args)
+            top[f"f{k + 1}"] += [c["o"] * (rep + 1)]
+    names = [f"f{k + 1}" for k in range(len(defs))]
+    if order == "outer-first":
+        names = names[::-1]
+    elif order == "mixed":
+        names = names[1::2] + names[0::2]
+    outs = {}
+    for nm in names:
+        for j, a in enumerate(top[nm]):
+            outs[f"{len(outs):02d}_{nm}_{j}"] = a
+    return pt.make_dict_of_named_arrays(outs)
+
+
+# --------------------------------------------------------------------------
+# two DISTINCT inputs with EQUAL results, the later one shared by several users
+# --------------------------------------------------------------------------
+
+def twin_graph(mode: str = "tag", order: str = "plain-first", fan: int = 3, levels: int = 2, tag=None):
+    """Per level: `plain = base + 1` and its twin — `mode="tag"`: the same expression carrying `tag`
+    (unequal now, equal once the tag is stripped); `mode="dup"`: a structurally equal distinct object.
+    Each of the two is used by `fan` different users and reached over several paths (directly from
+    the output dictionary, through a node that uses it twice, through users of users).
+    `order` decides which of the two a left-to-right traversal meets first."""
+    pt = _pt()
+    x = pt.make_placeholder("tw", (4, 4), F64)
+    base = x
+    outs = {}
+    for lvl in range(levels):
+        plain = base + 1
+        twin = base + 1
+        if mode == "tag":
+            twin = twin.tagged(tag)
+        up = [plain * (k + 2) for k in range(fan)]
+        ut = [twin * (k + 12) for k in range(fan)]
+        jp = up[0] + up[1] if fan > 1 else up[0] + plain
+        jt = ut[0] + ut[1] if fan > 1 else ut[0] + twin
+        twice_t = twin - twin                      # one user, two edges to the twin
+        twice_p = plain - plain
+        if order == "plain-first":
+            sides = [("p", plain, up, jp, twice_p), ("t", twin, ut, jt, twice_t)]
+        else:
+            sides = [("t", twin, ut, jt, twice_t), ("p", plain, up, jp, twice_p)]
+        for nm, node, users, join, twice in sides:
+            outs[f"{len(outs):02d}_l{lvl}{nm}_direct"] = node
+            outs[f"{len(outs):02d}_l{lvl}{nm}_twice"] = twice
+            for k, u in enumerate(users[2:]):
+                outs[f"{len(outs):02d}_l{lvl}{nm}_u{k}"] = u
+            outs[f"{len(outs):02d}_l{lvl}{nm}_join"] = join
+        a, b = (jp, jt) if order == "plain-first" else (jt, jp)
+        base = a * b                                # _in0 is met first
+    outs[f"{len(outs):02d}_top"] = base
+    return pt.make_dict_of_named_arrays(outs)
